@@ -1,7 +1,8 @@
 //! Hostile transport: honest base proofs, delivery of damaged bytes to the verifier node, and
 //! the semantic decode that tells whether a mutation changed the proof's content.
 
-use std::sync::OnceLock;
+use std::collections::BTreeMap;
+use std::sync::Mutex;
 
 use air::proof::Proof;
 use air::{FieldExtension, ProofOptions};
@@ -330,38 +331,41 @@ pub fn fresh_base(ch: &mut Chooser) -> Option<Box<dyn Base>> {
     dispatch(cfg, BuildJob { ch, cfg, ext, flavour })
 }
 
-static BASES: OnceLock<(u64, Vec<Box<dyn Base>>)> = OnceLock::new();
+static BASES: Mutex<BTreeMap<u64, &'static [Box<dyn Base>]>> = Mutex::new(BTreeMap::new());
 
 /// ~30 honest proofs across field x extension x hasher x option shapes, built once per process
+/// and seed (a known-finding replay may ask for the bases of another seed than the batch's)
 pub fn bases(seed: u64) -> &'static [Box<dyn Base>] {
-    let (s, b) = BASES.get_or_init(|| {
-        let mut out: Vec<Box<dyn Base>> = vec![];
-        let exts = [FieldExtension::None, FieldExtension::Quadratic, FieldExtension::Cubic];
-        let mut k = 0u64;
-        for (ci, cfg) in CONFIGS.iter().enumerate() {
-            for (ei, ext) in exts.iter().enumerate() {
-                // every (field, hasher) pair with one extension each, rotating; plus extra
-                // flavours (aux segment, wide trace, grinding) on the cheap hashers
-                let flavours: &[usize] = if ci < 3 { &[0, 1, 2, 3] } else { &[0] };
-                for &fl in flavours {
-                    if ci >= 3 && ei != ci % 3 {
-                        continue;
-                    }
-                    if ci < 3 && fl != 0 && ei != (fl + ci) % 3 {
-                        continue;
-                    }
-                    k += 1;
-                    let mut ch = Chooser::record(simcore::rng::stream(seed, "hostile-bases", k));
-                    if let Some(b) = dispatch(*cfg, BuildJob { ch: &mut ch, cfg: *cfg, ext: *ext, flavour: fl }) {
-                        out.push(b);
-                    }
+    let mut cache = BASES.lock().unwrap_or_else(|e| e.into_inner());
+    if let Some(b) = cache.get(&seed) {
+        return b;
+    }
+    let mut out: Vec<Box<dyn Base>> = vec![];
+    let exts = [FieldExtension::None, FieldExtension::Quadratic, FieldExtension::Cubic];
+    let mut k = 0u64;
+    for (ci, cfg) in CONFIGS.iter().enumerate() {
+        for (ei, ext) in exts.iter().enumerate() {
+            // every (field, hasher) pair with one extension each, rotating; plus extra
+            // flavours (aux segment, wide trace, grinding) on the cheap hashers
+            let flavours: &[usize] = if ci < 3 { &[0, 1, 2, 3] } else { &[0] };
+            for &fl in flavours {
+                if ci >= 3 && ei != ci % 3 {
+                    continue;
+                }
+                if ci < 3 && fl != 0 && ei != (fl + ci) % 3 {
+                    continue;
+                }
+                k += 1;
+                let mut ch = Chooser::record(simcore::rng::stream(seed, "hostile-bases", k));
+                if let Some(b) = dispatch(*cfg, BuildJob { ch: &mut ch, cfg: *cfg, ext: *ext, flavour: fl }) {
+                    out.push(b);
                 }
             }
         }
-        (seed, out)
-    });
-    assert_eq!(*s, seed, "harness: bases were built for another seed");
-    b
+    }
+    let leaked: &'static [Box<dyn Base>] = Box::leak(out.into_boxed_slice());
+    cache.insert(seed, leaked);
+    leaked
 }
 
 pub fn describe_bases(seed: u64) -> Vec<String> {
